@@ -36,9 +36,28 @@ ASSUMPTIONS = ["A1: one file.write call is atomic w.r.t. other writers",
                "the reader discards a final fragment that has no newline"]
 
 
+class Trigger(object):
+    """A value whose JSON encoding goes through the destination's json_default -- which logs."""
+
+    def __init__(self, k):
+        self.k = k
+
+
+_TRIG = [0]
+
+
 def prepare():
     base.prepare_common()
     base.monitoring()
+    from esim import values as V
+    orig = V.make_bad
+
+    def make(kind):
+        if kind == "trigger":
+            _TRIG[0] += 1
+            return Trigger(_TRIG[0])
+        return orig(kind)
+    V.make_bad = make
 
 
 def draw_cfg(st):
@@ -64,7 +83,13 @@ def draw_cfg(st):
         # real-OS leg: the same program in a forked child against a real file, SIGKILLed at a drawn
         # yield point; validates SimFile's claim that flushed data survives process death
         "real_os": st.choose(50, "real_os") == 49,
+        # a json_default that logs (re-entrant logging from inside the serialization of another message)
+        "logging_default": st.choose(4, "logging_default") == 3,
     }
+    if cfg["logging_default"]:
+        cfg["p_bad"] = 0.3
+        cfg["bad_kinds"] = ["trigger"]
+        cfg["real_os"] = False
     if cfg["real_os"]:
         world = "seq"
         cfg["world"] = "seq"
@@ -92,8 +117,21 @@ def setup(rc, interp):
     fault = rc.dec.stream("fault")
     f = SimFile("log", text=rc.cfg["text_file"], fault=fault, eager=rc.cfg["eager"], stats=rc.faults)
     rc.file = f
-    rc.tap = Tap(rc)
-    e.add_destinations(e.FileDestination(file=f), rc.tap)
+    rc.tap = Tap(rc, deep=False)
+    kw = {}
+    if rc.cfg.get("logging_default"):
+        _TRIG[0] = 0
+
+        def logging_default(o):
+            if isinstance(o, Trigger):
+                # acknowledged on its own: the nested logging call returns before the outer line is written
+                rc.probe("logged_from_inside_json_default")
+                interp.api(("nested", o.k), e.log_message, message_type="c11:nested", trigger=o.k)
+                return "trigger-%d" % o.k
+            from eliot.json import json_default
+            return json_default(o)
+        kw["json_default"] = logging_default
+    e.add_destinations(e.FileDestination(file=f, **kw), rc.tap)
     rc.snaps = []
     crash = rc.dec.stream("crash")
     p, pf = rc.cfg["p_crash"], rc.cfg["p_crash_file"]
@@ -128,6 +166,8 @@ def run_one(seed, dec):
     cfg = draw_cfg(dec.stream("cfg"))
     prog = P.generate(dec.stream("prog"), cfg)
     rc = RunCtx(ID, seed, dec, cfg)
+    if cfg.get("logging_default"):
+        rc.faulty_values = True
     run_program(rc, prog, setup)
     if rc.violation is None:
         try:
@@ -310,6 +350,13 @@ def check_snapshot(rc, sn, recs, offered, ret_at):
 
 
 def _jsonable(m):
+    """The message as the file holds it (Trigger values are encoded by the logging json_default)."""
+    if isinstance(m, Trigger):
+        return "trigger-%d" % m.k
+    if isinstance(m, dict):
+        return {k: _jsonable(v) for k, v in m.items()}
+    if isinstance(m, (list, tuple)):
+        return [_jsonable(v) for v in m]
     return m
 
 
